@@ -33,24 +33,39 @@ func ctxNeverCancelled(w *core.World, fn *core.FuncInfo, depth int, trail *[]str
 		return true
 	}
 	callers := 0
+	type site struct {
+		caller *core.FuncInfo
+		args   []ast.Expr
+	}
+	var sites []site
 	for _, cs := range w.Callers(fn.Obj) {
 		if w.IsTestFile(cs.Call.Pos()) || strings.Contains(cs.Caller.Pkg.PkgPath, "/mock") {
 			continue
 		}
+		sites = append(sites, site{cs.Caller, cs.Call.Args})
+	}
+	// calls through a struct field the method is stored in (a method expression in a handler table)
+	for _, vc := range w.ValueCallers(fn.Obj) {
+		if w.IsTestFile(vc.Call.Pos()) || strings.Contains(vc.Caller.Pkg.PkgPath, "/mock") || vc.Shift > len(vc.Call.Args) {
+			continue
+		}
+		sites = append(sites, site{vc.Caller, vc.Call.Args[vc.Shift:]})
+	}
+	for _, cs := range sites {
 		callers++
-		if idx >= len(cs.Call.Args) {
+		if idx >= len(cs.args) {
 			return false
 		}
-		o := origin(cs.Caller, cs.Call.Args[idx], 4)
+		o := origin(cs.caller, cs.args[idx], 4)
 		switch {
 		case o == "call:context.Background()" || o == "call:context.TODO()":
 			continue
 		case strings.HasPrefix(o, "param:"):
-			if !ctxNeverCancelled(w, cs.Caller, depth-1, trail) {
+			if !ctxNeverCancelled(w, cs.caller, depth-1, trail) {
 				return false
 			}
 		default:
-			*trail = append(*trail, core.ShortKey(cs.Caller.Obj)+" passes "+o)
+			*trail = append(*trail, core.ShortKey(cs.caller.Obj)+" passes "+o)
 			return false
 		}
 	}
@@ -219,11 +234,24 @@ func checkC11(r *core.Run) {
 		if core.RecvNamed(f.Obj) != aw || w.IsTestFile(f.Decl.Pos()) {
 			continue
 		}
-		for _, cs := range w.Calls(f) {
-			if isIfaceOrImpl(w, cs.Static, "pkg/datasource/sql/undo", "UndoLogManager", "BatchDeleteUndoLog") {
-				handlers = append(handlers, f)
-				break
+		// the delete may be issued by a helper of the package that is not itself a method of the worker (a session
+		// object holding the connection and the undo-log manager): the handler is the worker method calling it
+		var reaches func(g *core.FuncInfo, d int) bool
+		reaches = func(g *core.FuncInfo, d int) bool {
+			for _, cs := range w.Calls(g) {
+				if isIfaceOrImpl(w, cs.Static, "pkg/datasource/sql/undo", "UndoLogManager", "BatchDeleteUndoLog") {
+					return true
+				}
+				if h := w.Info(cs.Static); h != nil && d > 0 && h.Pkg == f.Pkg && h != g && core.RecvNamed(h.Obj) != aw && h.Decl.Body != nil {
+					if reaches(h, d-1) {
+						return true
+					}
+				}
 			}
+			return false
+		}
+		if reaches(f, 2) {
+			handlers = append(handlers, f)
 		}
 	}
 	if len(handlers) == 0 {
@@ -306,14 +334,16 @@ func checkC11(r *core.Run) {
 			}
 			return true
 		})
-		sp := &flow.Spec{W: w, Depth: 0, LoopTags: requeuesAll,
+		// (the three ways of not getting at the undo log may be decided in a helper: the handler continues per outcome)
+		sp := &flow.Spec{W: w, Depth: 0, LoopTags: requeuesAll, Fork: true, Split: []flow.Tag{"false:lookup", "fail:conn", "fail:mgr"},
 			StmtTags: func(pkg *packages.Package, s ast.Stmt) []flow.Tag {
 				if isQueueSend(pkg.TypesInfo, s) {
-					return []flow.Tag{"requeued-one", "-owed"}
+					return []flow.Tag{"requeued-one", "-owed", "-fail:delete"}
 				}
 				return nil
 			},
-			// the branch on which a delete is known to have failed owes that item to the queue
+			// the branch on which a delete is known to have failed owes that item to the queue (fail:delete is the
+			// engine's own record of it, also when the delete is the tail call of a helper)
 			CondTags: func(pkg *packages.Package, cond ast.Expr, branch bool) []flow.Tag {
 				if pkg != h.Pkg {
 					return nil
@@ -333,12 +363,12 @@ func checkC11(r *core.Run) {
 						whole := !sig.Variadic() || pi != sig.Params().Len()-1 || call.Ellipsis.IsValid()
 						if whole {
 							if batch != nil && isObj(pkg.TypesInfo, a, batch) {
-								return []flow.Tag{"requeued-all", "-owed"}
+								return []flow.Tag{"requeued-all", "-owed", "-fail:delete"}
 							}
 							return nil
 						}
 						if len(call.Args) == sig.Params().Len() {
-							return []flow.Tag{"requeued-one", "-owed"}
+							return []flow.Tag{"requeued-one", "-owed", "-fail:delete"}
 						}
 					}
 					return nil
@@ -442,14 +472,14 @@ func checkC11(r *core.Run) {
 		}
 		// a failed delete requeues that item: no path from the branch that knows the delete failed reaches the next
 		// delete or a return without a send on the queue (directly or through a requeue helper)
-		perItem := len(delErr) > 0
+		perItem := nDel > 0
 		for _, cp := range res.Calls {
-			if inSet("delete", cp.Tags...) && cp.Before.Maybe("owed") {
+			if inSet("delete", cp.Tags...) && (cp.Before.Maybe("owed") || cp.Before.Maybe("fail:delete")) {
 				perItem = false
 			}
 		}
 		for _, ex := range res.Exits {
-			if ex.St.Maybe("owed") {
+			if ex.St.Maybe("owed") || ex.St.Maybe("fail:delete") {
 				perItem = false
 			}
 		}
